@@ -11,65 +11,115 @@ import (
 )
 
 // symEval renders an expression of a constructor function symbolically: single-assignment
-// locals are replaced by their definition, parameters by $<index>, the type-asserted object
-// spec by $<TypeName>, fields of a locally built composite literal by the field's value,
+// locals are replaced by their definition, parameters of the root function by $<index>,
+// parameters of helpers by the argument of their (only) call site, range variables by the ranged
+// expression's element, the type-asserted object spec by $<TypeName>, fields of a locally built
+// composite literal by the field's value (given in the literal or assigned after construction),
 // and the IP-filter constructors by chain(..)/filter(..).
 type symEval struct {
 	f      *flow.Func
-	defs   map[types.Object]ast.Expr // single-assignment locals
-	multi  map[types.Object]bool
+	vf     *muxFlow
 	params map[types.Object]int
+	chain  *types.Func // (parent *IPFilters, child *ipfilter.Spec) *IPFilters
+	filter *types.Func // (spec *ipfilter.Spec) *IPFilter
 	depth  int
 }
 
-func newSymEval(f *flow.Func) *symEval {
-	s := &symEval{f: f, defs: map[types.Object]ast.Expr{}, multi: map[types.Object]bool{}, params: map[types.Object]int{}}
+func newSymEval(f *flow.Func, fns []*flow.Func, chain, filter *types.Func) *symEval {
+	s := &symEval{f: f, vf: newMuxFlow(fns), params: map[types.Object]int{}, chain: chain, filter: filter}
 	i := 0
 	if f.Type != nil && f.Type.Params != nil {
 		for _, fld := range f.Type.Params.List {
+			if len(fld.Names) == 0 {
+				i++
+			}
 			for _, n := range fld.Names {
 				s.params[f.Info.Defs[n]] = i
 				i++
 			}
 		}
 	}
-	ast.Inspect(f.Body, func(n ast.Node) bool {
-		as, ok := n.(*ast.AssignStmt)
-		if !ok {
-			return true
-		}
-		for i, l := range as.Lhs {
-			id, ok := l.(*ast.Ident)
-			if !ok {
-				continue
-			}
-			obj := f.Info.Defs[id]
-			if obj == nil {
-				obj = f.Info.Uses[id]
-			}
-			if obj == nil {
-				continue
-			}
-			if _, seen := s.defs[obj]; seen || s.multi[obj] {
-				s.multi[obj] = true
-				delete(s.defs, obj)
-				continue
-			}
-			if len(as.Lhs) == len(as.Rhs) {
-				s.defs[obj] = as.Rhs[i]
-			} else {
-				s.multi[obj] = true
-			}
-		}
-		return true
-	})
 	return s
+}
+
+// litBase resolves e (through single-definition locals and parameters of helpers with one call
+// site) to a local variable built by a composite literal.
+func (s *symEval) litBase(e ast.Expr, depth int) (*ast.CompositeLit, types.Object) {
+	id := muxIdentOf(e)
+	if id == nil || depth > 6 {
+		return nil, nil
+	}
+	o := s.vf.obj(id)
+	if pr, ok := s.vf.param[o]; ok {
+		if _, root := s.params[o]; root {
+			return nil, nil
+		}
+		if arg := s.onlyArg(pr); arg != nil {
+			return s.litBase(arg, depth+1)
+		}
+		return nil, nil
+	}
+	d := s.vf.singleDef(o)
+	if d == nil {
+		// the variable may be assigned once by a literal and have its fields set afterwards
+		return nil, nil
+	}
+	if lit := litOf(d); lit != nil {
+		return lit, o
+	}
+	return s.litBase(d, depth+1)
+}
+
+// onlyArg returns the operand bound to a helper's parameter when the helper has one call site.
+func (s *symEval) onlyArg(pr muxParamRef) ast.Expr {
+	sites := s.vf.sites[pr.fn]
+	if len(sites) != 1 {
+		return nil
+	}
+	call := sites[0].Call
+	if pr.idx < 0 {
+		if sel, ok := ast.Unparen(call.Fun).(*ast.SelectorExpr); ok {
+			return sel.X
+		}
+		return nil
+	}
+	if pr.idx < len(call.Args) {
+		return call.Args[pr.idx]
+	}
+	return nil
+}
+
+// fieldStore finds `holder.name = v` in the function set.
+func (s *symEval) fieldStore(holder types.Object, name string) ast.Expr {
+	var val ast.Expr
+	n := 0
+	for _, g := range s.vf.fns {
+		ast.Inspect(g.Body, func(x ast.Node) bool {
+			as, ok := x.(*ast.AssignStmt)
+			if !ok || len(as.Lhs) != len(as.Rhs) {
+				return true
+			}
+			for i, l := range as.Lhs {
+				if sel, ok := ast.Unparen(l).(*ast.SelectorExpr); ok && sel.Sel.Name == name {
+					if id := muxIdentOf(sel.X); id != nil && s.vf.obj(id) == holder {
+						val = as.Rhs[i]
+						n++
+					}
+				}
+			}
+			return true
+		})
+	}
+	if n == 1 {
+		return val
+	}
+	return nil
 }
 
 func (s *symEval) eval(e ast.Expr) string {
 	s.depth++
 	defer func() { s.depth-- }()
-	if s.depth > 12 {
+	if s.depth > 14 {
 		return "?"
 	}
 	f := s.f
@@ -78,12 +128,23 @@ func (s *symEval) eval(e ast.Expr) string {
 		if f.Info.Types[x].IsNil() {
 			return "nil"
 		}
-		obj := f.Info.Uses[x]
+		obj := s.vf.obj(x)
 		if i, ok := s.params[obj]; ok {
 			return "$" + string(rune('0'+i))
 		}
-		if d, ok := s.defs[obj]; ok {
-			return s.eval(d)
+		if pr, ok := s.vf.param[obj]; ok {
+			if arg := s.onlyArg(pr); arg != nil {
+				return s.eval(arg)
+			}
+			return "?" + x.Name
+		}
+		if ds := s.vf.defs[obj]; len(ds) == 1 {
+			switch d := ds[0]; {
+			case d.expr != nil:
+				return s.eval(d.expr)
+			case d.rng != nil && !d.isKey:
+				return s.eval(d.rng.X) + "[]"
+			}
 		}
 		return "?" + x.Name
 	case *ast.TypeAssertExpr:
@@ -101,28 +162,37 @@ func (s *symEval) eval(e ast.Expr) string {
 		return "lit"
 	case *ast.SelectorExpr:
 		// field of a locally built composite literal?
-		if id, ok := ast.Unparen(x.X).(*ast.Ident); ok {
-			if d, ok := s.defs[f.Info.Uses[id]]; ok {
-				if lit := litOf(d); lit != nil {
-					for _, el := range lit.Elts {
-						if kv, ok := el.(*ast.KeyValueExpr); ok {
-							if k, ok := kv.Key.(*ast.Ident); ok && k.Name == x.Sel.Name {
-								return s.eval(kv.Value)
-							}
-						}
+		if lit, holder := s.litBase(x.X, 0); lit != nil {
+			for _, el := range lit.Elts {
+				if kv, ok := el.(*ast.KeyValueExpr); ok {
+					if k, ok := kv.Key.(*ast.Ident); ok && k.Name == x.Sel.Name {
+						return s.eval(kv.Value)
 					}
 				}
+			}
+			if v := s.fieldStore(holder, x.Sel.Name); v != nil {
+				return s.eval(v)
 			}
 		}
 		return s.eval(x.X) + "." + x.Sel.Name
 	case *ast.IndexExpr:
 		return s.eval(x.X) + "[]"
 	case *ast.CallExpr:
+		fo, _ := f.Callee(x).(*types.Func)
+		if fo != nil {
+			fo = fo.Origin()
+		}
 		switch {
-		case calleeIs(f, x, hs+".newIPFilterChain") && len(x.Args) == 2:
+		case fo != nil && fo == s.chain && len(x.Args) == 2:
 			return "chain(" + s.eval(x.Args[0]) + "," + s.eval(x.Args[1]) + ")"
-		case calleeIs(f, x, hs+".newIPFilter") && len(x.Args) == 1:
+		case fo != nil && fo == s.filter && len(x.Args) == 1:
 			return "filter(" + s.eval(x.Args[0]) + ")"
+		}
+		if fo != nil {
+			// a same-package helper with a single return expression
+			if rets := s.vf.rets[fo]; len(rets) == 1 && len(rets[0].Results) == 1 && len(s.vf.sites[fo]) == 1 {
+				return s.eval(rets[0].Results[0])
+			}
 		}
 		return "call:" + calleeFull(f, x)
 	}
@@ -138,107 +208,226 @@ func litOf(e ast.Expr) *ast.CompositeLit {
 	return lit
 }
 
-// litField returns the value of field name in the (first) composite literal of type typ
-// built in f.
-func litField(f *flow.Func, typ, name string) (ast.Expr, ast.Node) {
-	var val ast.Expr
-	var at ast.Node
-	ast.Inspect(f.Body, func(n ast.Node) bool {
-		lit, ok := n.(*ast.CompositeLit)
-		if !ok || val != nil {
-			return true
-		}
-		tv, ok := f.Info.Types[lit]
-		if !ok || tv.Type == nil {
-			return true
-		}
-		nt, ok := tv.Type.(*types.Named)
-		if !ok || nt.Obj().Name() != typ {
-			return true
-		}
-		for _, el := range lit.Elts {
-			if kv, ok := el.(*ast.KeyValueExpr); ok {
-				if k, ok := kv.Key.(*ast.Ident); ok && k.Name == name {
-					val, at = kv.Value, kv
+// muxFieldInits returns the values a field of struct type typ is initialised with in the function
+// set: the field's entry in composite literals of typ, and `x.field = v` assignments.
+func muxFieldInits(fns []*flow.Func, typ *types.Named, fld *types.Var) (vals []ast.Expr, ats []ast.Node) {
+	if fld == nil || len(fns) == 0 {
+		return
+	}
+	info := fns[0].Info
+	for _, g := range fns {
+		ast.Inspect(g.Body, func(n ast.Node) bool {
+			switch x := n.(type) {
+			case *ast.CompositeLit:
+				tv, ok := info.Types[x]
+				if !ok || !muxSameNamed(muxDerefNamed(tv.Type), typ) {
+					return true
+				}
+				for _, el := range x.Elts {
+					if kv, ok := el.(*ast.KeyValueExpr); ok {
+						if k, ok := kv.Key.(*ast.Ident); ok && k.Name == fld.Name() {
+							vals, ats = append(vals, kv.Value), append(ats, kv)
+						}
+					}
+				}
+			case *ast.AssignStmt:
+				if len(x.Lhs) != len(x.Rhs) {
+					return true
+				}
+				for i, l := range x.Lhs {
+					if sel, ok := ast.Unparen(l).(*ast.SelectorExpr); ok {
+						if sl := info.Selections[sel]; sl != nil && sl.Obj() == fld {
+							vals, ats = append(vals, x.Rhs[i]), append(ats, x)
+						}
+					}
 				}
 			}
-		}
-		return true
-	})
-	return val, at
+			return true
+		})
+	}
+	return
 }
 
-// muxBuildChecks verifies how mux.reload / newMuxRule / newMuxPath / newIPFilterChain compose
+// muxCtors are the constructor functions of the router resolved by signature / what they build.
+type muxCtors struct {
+	reload, newRule, newPath, chainCtor, filterCtor *flow.Func
+	ruleSpecT, pathSpecT                            *types.Named
+}
+
+func muxParamIndex(fo *types.Func, pred func(t types.Type) bool) int {
+	sig := fo.Type().(*types.Signature)
+	for i := 0; i < sig.Params().Len(); i++ {
+		if pred(sig.Params().At(i).Type()) {
+			return i
+		}
+	}
+	return -1
+}
+
+func muxCtorsOf(c *core.Ctx, ro *muxRoles, rule string) *muxCtors {
+	pkg := c.Prog.Pkg(hs)
+	mc := &muxCtors{ruleSpecT: muxNamedTypeOpt(pkg.Types, "Rule"), pathSpecT: muxNamedTypeOpt(pkg.Types, "Path")}
+	returns := func(fo *types.Func, n *types.Named) bool {
+		sig := fo.Type().(*types.Signature)
+		return sig.Recv() == nil && sig.Results().Len() == 1 && muxIsPtrTo(sig.Results().At(0).Type(), n)
+	}
+	pick := func(prefer string, role func(fo *types.Func, g *flow.Func) bool) *flow.Func {
+		g, n := muxFuncByRole(c, hs, prefer, func(g *flow.Func, fd *ast.FuncDecl) bool {
+			fo := muxFuncObj(g)
+			return fo != nil && role(fo, g)
+		})
+		if g == nil {
+			c.Errorf("%s: anchor: cannot resolve the constructor playing the role of %s (%d candidates)", rule, prefer, n)
+		}
+		return g
+	}
+	hasParam := func(fo *types.Func, n *types.Named) bool {
+		return muxParamIndex(fo, func(t types.Type) bool { return muxIsPtrTo(t, n) }) >= 0
+	}
+	mc.newRule = pick("newMuxRule", func(fo *types.Func, g *flow.Func) bool { return returns(fo, ro.ruleT) && hasParam(fo, mc.ruleSpecT) })
+	mc.newPath = pick("newMuxPath", func(fo *types.Func, g *flow.Func) bool { return returns(fo, ro.pathT) && hasParam(fo, mc.pathSpecT) })
+	mc.chainCtor = pick("newIPFilterChain", func(fo *types.Func, g *flow.Func) bool {
+		sig := fo.Type().(*types.Signature)
+		return returns(fo, ro.filtersT) && sig.Params().Len() == 2 && muxIsPtrTo(sig.Params().At(0).Type(), ro.filtersT) && muxIsPtrTo(sig.Params().At(1).Type(), ro.filterSpecT)
+	})
+	mc.filterCtor = pick("newIPFilter", func(fo *types.Func, g *flow.Func) bool {
+		sig := fo.Type().(*types.Signature)
+		return returns(fo, ro.filterT) && sig.Params().Len() == 1 && muxIsPtrTo(sig.Params().At(0).Type(), ro.filterSpecT)
+	})
+	if mc.newRule == nil || mc.newPath == nil || mc.chainCtor == nil || mc.filterCtor == nil {
+		return nil
+	}
+	ruleObj := muxFuncObj(mc.newRule)
+	mc.reload = pick("reload", func(fo *types.Func, g *flow.Func) bool {
+		hasLit := false
+		ast.Inspect(g.Body, func(n ast.Node) bool {
+			if cl, ok := n.(*ast.CompositeLit); ok {
+				if tv, ok := g.Info.Types[cl]; ok && muxSameNamed(muxDerefNamed(tv.Type), ro.instT) {
+					hasLit = true
+				}
+			}
+			return true
+		})
+		return hasLit && muxReachCalls(g, 3, func(h *flow.Func, call *ast.CallExpr) bool {
+			co, ok := h.Callee(call).(*types.Func)
+			return ok && co.Origin() == ruleObj
+		})
+	})
+	if mc.reload == nil {
+		return nil
+	}
+	c.Count("functions_analysed", 5)
+	return mc
+}
+
+// muxBuildChecks verifies how the reload function and the rule / path / chain constructors compose
 // the per-level IP filters and the per-path filter chain, and that rules and paths keep
 // their configured order. Obligations are recorded under the given rule ids.
 func muxBuildChecks(c *core.Ctx, chainRule, orderRule string) {
-	reload := fn(c, hs, "mux", "reload")
-	nmr := fn(c, hs, "", "newMuxRule")
-	nmp := fn(c, hs, "", "newMuxPath")
-	nic := fn(c, hs, "", "newIPFilterChain")
-	if reload == nil || nmr == nil || nmp == nil || nic == nil {
+	rule := chainRule
+	if rule == "" {
+		rule = orderRule
+	}
+	ro := muxRolesOf(c, rule)
+	if ro == nil {
 		return
 	}
+	mc := muxCtorsOf(c, ro, rule)
+	if mc == nil {
+		return
+	}
+	reload, nmr, nmp, nic := mc.reload, mc.newRule, mc.newPath, mc.chainCtor
+	ruleObj, pathObj, chainObj, filterObj := muxFuncObj(nmr), muxFuncObj(nmp), muxFuncObj(nic), muxFuncObj(mc.filterCtor)
+	opaque := map[types.Object]bool{ruleObj: true, pathObj: true, chainObj: true, filterObj: true}
+	fns := muxReach(reload, 3, opaque)
+	isFilters := func(t types.Type) bool { return muxIsPtrTo(t, ro.filtersT) }
+	cons := muxFuncConstruct(reload)
+	type ctorCall struct {
+		fn   *flow.Func
+		call *ast.CallExpr
+	}
+	var pathCalls, ruleCalls []ctorCall
+	for _, g := range fns {
+		for _, call := range calls(g.Body, true) {
+			fo, ok := g.Callee(call).(*types.Func)
+			if !ok {
+				continue
+			}
+			switch fo.Origin() {
+			case pathObj:
+				pathCalls = append(pathCalls, ctorCall{g, call})
+			case ruleObj:
+				ruleCalls = append(ruleCalls, ctorCall{g, call})
+			}
+		}
+	}
+	pathSpecIdx := muxParamIndex(pathObj, func(t types.Type) bool { return muxIsPtrTo(t, mc.pathSpecT) })
+	pathChainIdx := muxParamIndex(pathObj, isFilters)
+	ruleSpecIdx := muxParamIndex(ruleObj, func(t types.Type) bool { return muxIsPtrTo(t, mc.ruleSpecT) })
+	se := newSymEval(reload, fns, chainObj, filterObj)
 	if chainRule != "" {
 		// ---- reload
-		se := newSymEval(reload)
-		cons := fname(hs, "mux", "reload")
-		if v, at := litField(reload, "muxInstance", "ipFilter"); v != nil {
-			got := se.eval(v)
-			c.Check(got == "filter($Spec.IPFilter)", chainRule, cons+"|server-level filter", pos(c, at), got, "the server-level IP filter is not built from the server spec's ipFilter: "+got)
+		if vals, ats := muxFieldInits(fns, ro.instT, ro.instFilterF); len(vals) > 0 {
+			for i, v := range vals {
+				got := se.eval(v)
+				c.Check(got == "filter($Spec.IPFilter)", chainRule, cons+"|server-level filter", pos(c, ats[i]), got, "the server-level IP filter is not built from the server spec's ipFilter: "+got)
+			}
 		} else {
 			c.Violate(chainRule, cons+"|server-level filter", pos(c, reload.Body), "the new mux instance has no server-level IP filter")
 		}
-		var pathCalls, ruleCalls []*ast.CallExpr
-		for _, call := range calls(reload.Body, false) {
-			if calleeIs(reload, call, hs+".newMuxPath") {
-				pathCalls = append(pathCalls, call)
-			}
-			if calleeIs(reload, call, hs+".newMuxRule") {
-				ruleCalls = append(ruleCalls, call)
-			}
-		}
 		c.RequireCount(chainRule, "newMuxPath calls in reload", len(pathCalls), 1)
 		c.RequireCount(chainRule, "newMuxRule calls in reload", len(ruleCalls), 1)
-		for _, call := range pathCalls {
-			if len(call.Args) != 2 {
+		for _, pc := range pathCalls {
+			call := pc.call
+			if pathChainIdx < 0 || pathSpecIdx < 0 || len(call.Args) <= pathChainIdx || len(call.Args) <= pathSpecIdx {
+				c.Undecide(chainRule, cons+"|chain handed to the path = server + rule filters", pos(c, call), "unexpected signature of the path constructor")
 				continue
 			}
-			got := se.eval(call.Args[0])
+			got := se.eval(call.Args[pathChainIdx])
 			want := "chain(chain(nil,$Spec.IPFilter),$Spec.Rules[].IPFilter)"
 			c.Check(got == want, chainRule, cons+"|chain handed to the path = server + rule filters", pos(c, call), got,
 				"the filter chain handed to newMuxPath is "+got+", expected "+want+": on a cache hit only this chain is checked, so a level missing here is not enforced for cached routes")
-			gotp := se.eval(call.Args[1])
+			gotp := se.eval(call.Args[pathSpecIdx])
 			c.Check(gotp == "$Spec.Rules[].Paths[]", chainRule, cons+"|path spec handed to newMuxPath", pos(c, call), gotp, "newMuxPath is given "+gotp+" instead of the rule's path spec")
 		}
-		for _, call := range ruleCalls {
-			if len(call.Args) != 3 {
+		for _, rc := range ruleCalls {
+			call := rc.call
+			if ruleSpecIdx < 0 || len(call.Args) <= ruleSpecIdx {
 				continue
 			}
-			got := se.eval(call.Args[1])
+			got := se.eval(call.Args[ruleSpecIdx])
 			c.Check(got == "$Spec.Rules[]", chainRule, cons+"|rule spec handed to newMuxRule", pos(c, call), got, "newMuxRule is given "+got+" instead of the rule spec")
 		}
-		// ---- newMuxRule / newMuxPath literals
+		// ---- newMuxRule / newMuxPath: own-level filters
 		for _, it := range []struct {
-			f        *flow.Func
-			typ, fn_ string
-			param    string
-		}{{nmr, "muxRule", "newMuxRule", "$1"}, {nmp, "MuxPath", "newMuxPath", "$1"}} {
-			se := newSymEval(it.f)
-			cons := fname(hs, "", it.fn_)
-			if v, at := litField(it.f, it.typ, "ipFilter"); v != nil {
-				got := se.eval(v)
-				c.Check(got == "filter("+it.param+".IPFilter)", chainRule, cons+"|own-level filter", pos(c, at), got, it.typ+".ipFilter is not built from its own spec's ipFilter: "+got)
+			f     *flow.Func
+			typ   *types.Named
+			fld   *types.Var
+			param int
+		}{{nmr, ro.ruleT, ro.ruleFilterF, ruleSpecIdx}, {nmp, ro.pathT, ro.pathFilterF, pathSpecIdx}} {
+			ifns := muxReach(it.f, 2, opaque)
+			se := newSymEval(it.f, ifns, chainObj, filterObj)
+			cons := muxFuncConstruct(it.f)
+			want := "filter($" + string(rune('0'+it.param)) + ".IPFilter)"
+			if vals, ats := muxFieldInits(ifns, it.typ, it.fld); len(vals) > 0 {
+				for i, v := range vals {
+					got := se.eval(v)
+					c.Check(got == want, chainRule, cons+"|own-level filter", pos(c, ats[i]), got, it.typ.Obj().Name()+"."+it.fld.Name()+" is not built from its own spec's ipFilter: "+got)
+				}
 			} else {
-				c.Violate(chainRule, cons+"|own-level filter", pos(c, it.f.Body), it.typ+" is built without its own IP filter")
+				c.Violate(chainRule, cons+"|own-level filter", pos(c, it.f.Body), it.typ.Obj().Name()+" is built without its own IP filter")
 			}
 		}
 		{
-			se := newSymEval(nmp)
-			cons := fname(hs, "", "newMuxPath")
-			if v, at := litField(nmp, "MuxPath", "ipFilterChain"); v != nil {
-				got := se.eval(v)
-				c.Check(got == "chain($0,$1.IPFilter)", chainRule, cons+"|chain = parent chain + path filter", pos(c, at), got, "MuxPath.ipFilterChain is "+got+", expected the parent chain extended by the path's own filter")
+			ifns := muxReach(nmp, 2, opaque)
+			se := newSymEval(nmp, ifns, chainObj, filterObj)
+			cons := muxFuncConstruct(nmp)
+			want := "chain($" + string(rune('0'+pathChainIdx)) + ",$" + string(rune('0'+pathSpecIdx)) + ".IPFilter)"
+			if vals, ats := muxFieldInits(ifns, ro.pathT, ro.pathChainF); len(vals) > 0 {
+				for i, v := range vals {
+					got := se.eval(v)
+					c.Check(got == want, chainRule, cons+"|chain = parent chain + path filter", pos(c, ats[i]), got, "MuxPath."+ro.pathChainF.Name()+" is "+got+", expected the parent chain extended by the path's own filter")
+				}
 			} else {
 				c.Violate(chainRule, cons+"|chain = parent chain + path filter", pos(c, nmp.Body), "MuxPath is built without a filter chain: cached routes are returned without any IP check")
 			}
@@ -247,79 +436,136 @@ func muxBuildChecks(c *core.Ctx, chainRule, orderRule string) {
 	}
 	if orderRule != "" {
 		// rules[i] = newMuxRule(.., spec.Rules[i], ..); paths[j] = newMuxPath(.., specRule.Paths[j])
-		cons := fname(hs, "mux", "reload")
-		se := newSymEval(reload)
+		// (the spec element may also be the value variable of `for i, x := range spec.Rules`,
+		// and the element may be appended in iteration order instead of stored by index)
+		vf := se.vf
 		n := 0
-		ast.Inspect(reload.Body, func(x ast.Node) bool {
-			as, ok := x.(*ast.AssignStmt)
-			if !ok || len(as.Lhs) != 1 || len(as.Rhs) != 1 {
-				return true
-			}
-			lix, ok := ast.Unparen(as.Lhs[0]).(*ast.IndexExpr)
-			if !ok {
-				return true
-			}
-			call, ok := ast.Unparen(as.Rhs[0]).(*ast.CallExpr)
-			if !ok {
-				return true
-			}
-			var specArg ast.Expr
-			role := ""
-			switch {
-			case calleeIs(reload, call, hs+".newMuxRule") && len(call.Args) == 3:
-				specArg, role = call.Args[1], "rules"
-			case calleeIs(reload, call, hs+".newMuxPath") && len(call.Args) == 2:
-				specArg, role = call.Args[1], "paths"
-			default:
-				return true
-			}
-			n++
-			// find the index expression used to select the spec element
-			var six *ast.IndexExpr
-			cur := specArg
-			for i := 0; i < 6 && six == nil; i++ {
-				switch t := ast.Unparen(cur).(type) {
+		for _, g := range fns {
+			g := g
+			ast.Inspect(g.Body, func(x ast.Node) bool {
+				as, ok := x.(*ast.AssignStmt)
+				if !ok || len(as.Lhs) != 1 || len(as.Rhs) != 1 {
+					return true
+				}
+				rhs := ast.Unparen(as.Rhs[0])
+				call, _ := rhs.(*ast.CallExpr)
+				if call == nil {
+					return true
+				}
+				appended := false
+				if b, ok := g.Callee(call).(*types.Builtin); ok && b.Name() == "append" && len(call.Args) == 2 && !call.Ellipsis.IsValid() {
+					// xs = append(xs, ctor(..))
+					if g.Render(call.Args[0]) != g.Render(as.Lhs[0]) {
+						return true
+					}
+					call, _ = ast.Unparen(call.Args[1]).(*ast.CallExpr)
+					if call == nil {
+						return true
+					}
+					appended = true
+				}
+				fo, _ := g.Callee(call).(*types.Func)
+				if fo == nil {
+					return true
+				}
+				var specArg ast.Expr
+				role := ""
+				switch {
+				case fo.Origin() == ruleObj && ruleSpecIdx >= 0 && ruleSpecIdx < len(call.Args):
+					specArg, role = call.Args[ruleSpecIdx], "rules"
+				case fo.Origin() == pathObj && pathSpecIdx >= 0 && pathSpecIdx < len(call.Args):
+					specArg, role = call.Args[pathSpecIdx], "paths"
+				default:
+					return true
+				}
+				n++
+				// the spec element: X[i], or the value variable of a range loop with key i
+				var specIndex ast.Expr
+				var specRange *ast.RangeStmt
+				cur := specArg
+				for i := 0; i < 6; i++ {
+					if ie, ok := ast.Unparen(cur).(*ast.IndexExpr); ok {
+						specIndex = ie.Index
+						break
+					}
+					id := muxIdentOf(cur)
+					if id == nil {
+						break
+					}
+					o := vf.obj(id)
+					if ds := vf.defs[o]; len(ds) == 1 && ds[0].rng != nil && !ds[0].isKey {
+						specRange = ds[0].rng
+						break
+					}
+					d := vf.singleDef(o)
+					if d == nil {
+						break
+					}
+					cur = d
+				}
+				ok2 := false
+				switch lhs := ast.Unparen(as.Lhs[0]).(type) {
 				case *ast.IndexExpr:
-					six = t
-				case *ast.Ident:
-					if d, ok := se.defs[reload.Info.Uses[t]]; ok {
-						cur = d
-					} else {
-						i = 99
+					if !appended {
+						switch {
+						case specIndex != nil:
+							ok2 = g.Render(specIndex) == g.Render(lhs.Index)
+						case specRange != nil && specRange.Key != nil:
+							ok2 = g.Render(specRange.Key) == g.Render(lhs.Index)
+						}
 					}
 				default:
-					i = 99
-				}
-			}
-			ok2 := six != nil && reload.Render(six.Index) == reload.Render(lix.Index)
-			c.Check(ok2, orderRule, cons+"|"+role+" keep configured order", pos(c, as),
-				"element i of the runtime "+role+" is built from element i of the spec", "the runtime "+role+" are not built position by position from the spec: the configured rule-then-path order (first match wins) is not preserved")
-			return true
-		})
-		c.RequireCount(orderRule, "rule/path construction sites in reload", n, 2)
-		// the loops must count upwards from 0 over the full length
-		loops := 0
-		ast.Inspect(reload.Body, func(x ast.Node) bool {
-			fs, ok := x.(*ast.ForStmt)
-			if !ok {
-				return true
-			}
-			loops++
-			up := false
-			if inc, ok := fs.Post.(*ast.IncDecStmt); ok && inc.Tok == token.INC {
-				if init, ok := fs.Init.(*ast.AssignStmt); ok && len(init.Rhs) == 1 {
-					if tv, ok := reload.Info.Types[init.Rhs[0]]; ok && tv.Value != nil && tv.Value.ExactString() == "0" {
-						if be, ok := fs.Cond.(*ast.BinaryExpr); ok && be.Op == token.LSS {
-							if call, ok := ast.Unparen(be.Y).(*ast.CallExpr); ok && calleeFull(reload, call) == "builtin.len" {
-								up = true
+					// appended in iteration order of a loop over the spec elements
+					if appended && (specRange != nil || specIndex != nil) {
+						loops := enclosingLoops(g.Body, as)
+						if len(loops) > 0 {
+							switch l := loops[len(loops)-1].(type) {
+							case *ast.RangeStmt:
+								ok2 = specRange == l || (specIndex != nil && l.Key != nil && g.Render(l.Key) == g.Render(specIndex))
+							case *ast.ForStmt:
+								if inc, isInc := l.Post.(*ast.IncDecStmt); isInc && specIndex != nil {
+									ok2 = g.Render(inc.X) == g.Render(specIndex)
+								}
 							}
 						}
 					}
 				}
-			}
-			c.Check(up, orderRule, cons+"|construction loop covers every element", pos(c, fs), "for i := 0; i < len(..); i++", "a construction loop in reload does not visit every configured element exactly once in order")
-			return true
-		})
+				c.Check(ok2, orderRule, cons+"|"+role+" keep configured order", pos(c, as),
+					"element i of the runtime "+role+" is built from element i of the spec", "the runtime "+role+" are not built position by position from the spec: the configured rule-then-path order (first match wins) is not preserved")
+				return true
+			})
+		}
+		c.RequireCount(orderRule, "rule/path construction sites in reload", n, 2)
+		// the loops must count upwards from 0 over the full length
+		loops := 0
+		for _, g := range fns {
+			g := g
+			ast.Inspect(g.Body, func(x ast.Node) bool {
+				fs, ok := x.(*ast.ForStmt)
+				if !ok {
+					return true
+				}
+				loops++
+				up := false
+				if inc, ok := fs.Post.(*ast.IncDecStmt); ok && inc.Tok == token.INC {
+					if init, ok := fs.Init.(*ast.AssignStmt); ok && len(init.Rhs) == 1 {
+						if tv, ok := g.Info.Types[init.Rhs[0]]; ok && tv.Value != nil && tv.Value.ExactString() == "0" {
+							if be, ok := fs.Cond.(*ast.BinaryExpr); ok {
+								bound := be.Y
+								if be.Op == token.GTR {
+									bound = be.X
+								}
+								if (be.Op == token.LSS || be.Op == token.GTR) && vf.lenOf(bound) != nil {
+									up = true
+								}
+							}
+						}
+					}
+				}
+				c.Check(up, orderRule, cons+"|construction loop covers every element", pos(c, fs), "for i := 0; i < len(..); i++", "a construction loop in reload does not visit every configured element exactly once in order")
+				return true
+			})
+		}
 		if loops == 0 {
 			// range-based construction is fine too
 			c.Discharge(orderRule, cons+"|construction loop covers every element", pos(c, reload.Body), "no counting loops (range-based construction)")
@@ -330,24 +576,49 @@ func muxBuildChecks(c *core.Ctx, chainRule, orderRule string) {
 // muxChainCtor checks newIPFilterChain: all parent filters are copied, the child filter is
 // appended when a child spec is given, nil is returned only for an empty chain.
 func muxChainCtor(c *core.Ctx, rule string, f *flow.Func) {
-	cons := fname(hs, "", "newIPFilterChain")
-	if f.Type.Params == nil || len(f.Type.Params.List) != 2 {
+	cons := muxFuncConstruct(f)
+	if f.Type.Params == nil || f.Type.Params.NumFields() != 2 {
 		c.Undecide(rule, cons+"|signature", pos(c, f.Body), "unexpected signature")
 		return
 	}
-	parent := f.Type.Params.List[0].Names[0]
-	child := f.Type.Params.List[1].Names[0]
+	var names []*ast.Ident
+	for _, fld := range f.Type.Params.List {
+		names = append(names, fld.Names...)
+	}
+	if len(names) != 2 {
+		c.Undecide(rule, cons+"|signature", pos(c, f.Body), "unnamed parameters")
+		return
+	}
+	parent, child := names[0], names[1]
+	vf := newMuxFlow([]*flow.Func{f})
+	isParam := func(e ast.Expr, p *ast.Ident) bool {
+		return vf.allPaths(e, false, func(o types.Object) bool { return o == f.Info.Defs[p] })
+	}
 	parentNil, childNil := f.NilKey(parent), f.NilKey(child)
 	res := analyze(c, f, flow.Config{NoHavoc: true,
+		AfterAssume: func(st *flow.State, cond ast.Expr, outcome bool) {
+			// "the chain built so far is empty" as an event: with a named result the engine drops the
+			// facts about the result variable when `return nil` assigns it
+			for _, k := range st.Facts() {
+				if strings.HasPrefix(k, "eq:len(") && strings.HasSuffix(k[:len(k)-2], "==0") {
+					if strings.HasSuffix(k, "=T") {
+						st.Set("ev:empty", flow.True)
+					} else {
+						st.Set("ev:empty", flow.False)
+					}
+				}
+			}
+		},
 		OnCall: func(st *flow.State, call *ast.CallExpr, callee types.Object, deferred bool) {
+			if calleeIs(f, call, "pkg/util/ipfilter.NewIPFilters") || calleeIs(f, call, "(*pkg/util/ipfilter.IPFilters).Append") {
+				st.Set("ev:empty", flow.Unknown)
+			}
 			if calleeIs(f, call, "pkg/util/ipfilter.NewIPFilters") {
 				copied := false
 				if call.Ellipsis.IsValid() && len(call.Args) == 1 {
-					if inner, ok := ast.Unparen(call.Args[0]).(*ast.CallExpr); ok && calleeIs(f, inner, "(*pkg/util/ipfilter.IPFilters).Filters") {
-						if sel, ok := ast.Unparen(inner.Fun).(*ast.SelectorExpr); ok {
-							if id, ok := ast.Unparen(sel.X).(*ast.Ident); ok && f.Info.Uses[id] == f.Info.Defs[parent] {
-								copied = true
-							}
+					if inner, ok := vf.through(call.Args[0]).(*ast.CallExpr); ok && calleeIs(f, inner, "(*pkg/util/ipfilter.IPFilters).Filters") {
+						if sel, ok := ast.Unparen(inner.Fun).(*ast.SelectorExpr); ok && isParam(sel.X, parent) {
+							copied = true
 						}
 					}
 				}
@@ -358,10 +629,8 @@ func muxChainCtor(c *core.Ctx, rule string, f *flow.Func) {
 				}
 			}
 			if calleeIs(f, call, "(*pkg/util/ipfilter.IPFilters).Append") && len(call.Args) == 1 {
-				if inner, ok := ast.Unparen(call.Args[0]).(*ast.CallExpr); ok && calleeIs(f, inner, "pkg/util/ipfilter.New") && len(inner.Args) == 1 {
-					if id, ok := ast.Unparen(inner.Args[0]).(*ast.Ident); ok && f.Info.Uses[id] == f.Info.Defs[child] {
-						st.Set("ev:appended", flow.True)
-					}
+				if inner, ok := vf.through(call.Args[0]).(*ast.CallExpr); ok && calleeIs(f, inner, "pkg/util/ipfilter.New") && len(inner.Args) == 1 && isParam(inner.Args[0], child) {
+					st.Set("ev:appended", flow.True)
 				}
 			}
 		},
@@ -373,14 +642,22 @@ func muxChainCtor(c *core.Ctx, rule string, f *flow.Func) {
 	why := ""
 	n := 0
 	for _, ex := range res.Exits {
-		if ex.Kind != flow.ExitReturn || ex.Return == nil || len(ex.Return.Results) != 1 {
+		if ex.Kind != flow.ExitReturn {
+			continue
+		}
+		r := muxRetExpr(f, vf, ex)
+		if r == nil {
 			continue
 		}
 		n++
 		st := ex.State
-		if f.Info.Types[ex.Return.Results[0]].IsNil() {
+		isNil := f.Info.Types[r].IsNil()
+		if id := muxIdentOf(r); id != nil && !isNil && st.Is(f.NilKey(id), flow.True) {
+			isNil = true
+		}
+		if isNil {
 			// nil only for an empty chain
-			emptyKnown := false
+			emptyKnown := st.Is("ev:empty", flow.True)
 			for _, k := range st.Facts() {
 				if strings.HasPrefix(k, "eq:len(") && strings.HasSuffix(k, "==0=T") {
 					emptyKnown = true
